@@ -5,6 +5,8 @@ spec: RoundTrip.tla (protocol + enumeration of every class x every single / pair
 The save / restore-during-training part of the property is checked with C03 (TrainingHistory).
 """
 import json
+import os
+import warnings
 
 import numpy as np
 
@@ -89,7 +91,7 @@ def registry(tf, tfl):
   }
 
 
-def one_round_trip(tf, tfl, reg, cls, overrides, rng):
+def one_round_trip(tf, tfl, reg, cls, overrides, rng, save_formats=()):
   """Returns an event dict (status and canonical observations) or None when the constructor rejects the arguments."""
   ctor, base, kind, shape = reg[cls]
   kwargs = dict(base)
@@ -180,6 +182,12 @@ def one_round_trip(tf, tfl, reg, cls, overrides, rng):
           if kind == "layer_rtl":
             ev["vars1"] = canon([ev["vars1"], [[list(m), [list(map(int, l)) for l in ls]] for m, ls in obj._rtl_structure]])
             ev["vars2"] = canon([ev["vars2"], [[list(m), [list(map(int, l)) for l in ls]] for m, ls in obj2._rtl_structure]])
+          if save_formats and kind != "layer_rtl":
+            # SaveModel / LoadModel: the layer inside a functional model, written to disk and read back
+            ev["outs3"] = {}
+            for fmt in save_formats:
+              step = "save_model_" + fmt
+              ev["outs3"][fmt] = ints(flat(_save_load(tf, tf_keras, cls, kwargs, ctor, obj, x, fmt, custom)))
         elif kind == "fn":
           ev["outs1"], ev["outs2"] = ints(obj(probe)), ints(obj2(probe))
         elif kind == "init":
@@ -198,6 +206,27 @@ def one_round_trip(tf, tfl, reg, cls, overrides, rng):
     ev["status"] = "%s:%s" % (step, type(ex).__name__)
     ev["exc"] = repr(ex)[:200]
   return ev
+
+
+def _save_load(tf, tf_keras, cls, kwargs, ctor, obj, x, fmt, custom):
+  """A fresh layer of the same arguments inside a functional model with the original weights, saved in format fmt and
+  loaded back with the tfl custom objects; returns the reloaded model's output on the probe."""
+  import shutil
+  import tempfile
+  lay = ctor(**kwargs)
+  inp = tf_keras.Input(shape=tuple(x.shape[1:]), dtype=x.dtype)
+  model = tf_keras.Model(inp, lay(inp))
+  lay.set_weights(obj.get_weights())
+  d = tempfile.mkdtemp(prefix="c11_")
+  try:
+    path = os.path.join(d, "m.keras" if fmt == "keras" else "m.h5")
+    with warnings.catch_warnings():
+      warnings.simplefilter("ignore")
+      model.save(path)
+    m2 = tf_keras.models.load_model(path, custom_objects=custom)
+    return m2(x)
+  finally:
+    shutil.rmtree(d, ignore_errors=True)
 
 
 def _shape_of(tf, cls, kw):
@@ -247,7 +276,9 @@ def run(ctx):
     cases = [c for j, c in enumerate(cases) if len(c["args"]) <= 1 or (j + ctx.seed) % 3 == 0]
   events, rejected = [], 0
   for c in cases:
-    ev = one_round_trip(tf, tfl, reg, c["cls"], [tuple(a) for a in c["args"]], rng)
+    # the save / load steps of the protocol are run for every single-argument case (thorough: for the pairs as well)
+    fmts = ("keras", "h5") if (len(c["args"]) <= 1 or not ctx.quick) else ()
+    ev = one_round_trip(tf, tfl, reg, c["cls"], [tuple(a) for a in c["args"]], rng, save_formats=fmts)
     if ev is None:
       rejected += 1
       continue
@@ -269,7 +300,7 @@ def replay(ctx, path):
   events = []
   for ev in rec["events"]:
     c = ev["call"]
-    e2 = one_round_trip(tf, tfl, reg, c["cls"], [tuple(a) for a in c["args"]], rng)
+    e2 = one_round_trip(tf, tfl, reg, c["cls"], [tuple(a) for a in c["args"]], rng, save_formats=("keras", "h5"))
     log("replay %s %s -> %s %s" % (c["cls"], c["args"], e2 and e2["status"], e2 and e2.get("exc")))
     if e2:
       events.append(e2)
